@@ -169,6 +169,10 @@ def typed_expected(p):
         else:
             shades.append([sh["name"], [n4x(sh["x"]), n4x(sh["y"]), n4x(sh["z"]), n4x(sh["h"]), n4x(sh["w"]), n4x(sh["azimuth"]), n4x(sh["tilt"])], []])
     tbs = [[t["name"], n4x(t["long"]) if "long" in t else -1, n4x(t.get("ttl", 0.5)), n4x(t.get("frsi", 0.6))] for t in p.get("tbs", [])]
+    # type, geometry and catalogue lists of the thermal bridges (each position has one type of value: TLC compares the rows)
+    tbx = [[t["name"], t.get("type", ""), [n4x(t["amin"]), n4x(t["amax"])] if "amin" in t else [], t.get("partition", ""), 1 if t.get("defn") == 3 else 0,
+            list(t.get("ln", [])) if t.get("defn") == 3 else [], [n4x(x) for x in t.get("ll", [])], [n4x(x) for x in t.get("lmuro", [])], [n4x(x) for x in t.get("lmarco", [])]]
+           for t in p.get("tbs", [])]
     floors = [[fl["name"], n4x(fl.get("z", 0)), n4x(fl.get("height", 3)), n4x(fl.get("mult", 1)), fl.get("previous", "")] for fl in p.get("floors", [])]
     absorp = {l["name"]: 6000 for l in p.get("layers", [])}       # a LAYERS block no CONSTRUCTION refers to by its own name: documented default 0.6
     for fl in p.get("floors", []):
@@ -190,7 +194,7 @@ def typed_expected(p):
     groups["layers"] = [[k, lgroup[k]] for k in sorted(lgroup)]
     matx = [[m["name"], n4x(m["thick"]) if "thick" in m else -1, n4x(m["mu"]) if "mu" in m else -1] for m in sorted(p.get("materials", []), key=lambda m: m["name"]) if "r" not in m]
     return {"materials": mats, "wallcons": [wallcons[k] for k in sorted(wallcons)], "spaces": spaces, "walls": walls, "windows": windows,
-            "wallgeo": wallgeo, "wincons": wincons, "glasses": glasses, "frames": frames, "shades": shades, "tbs": tbs, "floors": floors,
+            "wallgeo": wallgeo, "wincons": wincons, "glasses": glasses, "frames": frames, "shades": shades, "tbs": tbs, "tbx": tbx, "floors": floors,
             "absorptance": [[k, absorp[k]] for k in sorted(absorp)], "matx": matx, "groups": groups}
 
 
